@@ -168,6 +168,17 @@ def fc_analysis(n):
     return 'CONT', l or r == 'ANY'
 
 
+EOLS = (0x0A, 0x0D, 0x2028, 0x2029)
+
+
+def dotstar_eol(g, subj):
+    """class of F37: the expression starts with an unbounded '.' closure (matches() then scans line starts only), option s
+    is off, and the subject (or window source) holds an end-of-line character"""
+    pat = g["pat"]
+    lead = pat[:2] == [46, 42] or pat[:5] == [46, 123, 48, 44, 125]
+    return lead and "s" not in g["opts"] and any(c in EOLS for c in subj)
+
+
 def char_at_unit(cps, u):
     pos = 0
     for c in cps:
@@ -444,6 +455,9 @@ def evaluate(g, tagged, answers):
         wv, sv = split_res(A["win"])[0], split_res(A["sub"])[0]
         for k, ((s, a, bnd), p, q) in enumerate(zip(g["windows"], wv, sv)):
             if p != shift(q, units(s[:a])):
+                if dotstar_eol(g, s):
+                    bad.append(("F37-dotstar", "window #%d [%d,%d): %s, on the substring %s" % (k, a, bnd, p, q), Ln["win"]))
+                    break
                 bad.append(("O6-window", "window #%d [%d,%d): %s, on the substring %s" % (k, a, bnd, p, q), Ln["win"]))
                 break
     for k, x in enumerate(split_res(A["t"])[0]):
